@@ -1616,11 +1616,123 @@ fn grid_funcs(tables: &Tables) -> Vec<&'static str> {
 }
 
 pub fn grid_len(tables: &Tables) -> u64 {
+    scaling_grid_len(tables) + applicability_grid_len()
+}
+
+fn scaling_grid_len(tables: &Tables) -> u64 {
     grid_funcs(tables).len() as u64 * GRID_DAYS * GRID_FACTORS * 2
+}
+
+// ---------------------------------------------------------------------------
+// Applicability: the last clause of the property — "formatting into a text sink reports an
+// inapplicable field as an error instead of panicking". A picture element is inapplicable to a
+// type when the type does not carry that component at all: a DATE has no time of day, a TIME
+// no calendar date, a year-month interval nothing below the month, a day-time interval nothing
+// above the day, and the Oracle-style date no fractional seconds. (Left open on purpose, and
+// demanded by nothing here: 12-hour and meridian elements on a day-time interval, month names
+// on a year-month interval.) The oracle speaks only about pictures of a strict shape — known
+// elements separated by single punctuation characters — which need no knowledge of the
+// library's lexer to be read.
+// ---------------------------------------------------------------------------
+
+/// (element, types that carry it) — D Date, S Timestamp, T Time, Y IntervalYM, I IntervalDT, O OracleDate;
+/// lower case: left open (no demand either way).
+const ELEMENTS: [(&str, &str); 31] = [
+    ("YYYY", "DSYO"), ("YYY", "DSYO"), ("YY", "DSYO"), ("Y", "DSYO"), ("MM", "DSYO"), ("DD", "DSIO"),
+    ("HH24", "STIO"), ("MI", "STIO"), ("SS", "STIO"),
+    ("HH", "STOi"), ("HH12", "STOi"), ("AM", "STOi"), ("PM", "STOi"),
+    ("FF", "STI"), ("FF1", "STI"), ("FF2", "STI"), ("FF3", "STI"), ("FF4", "STI"), ("FF5", "STI"), ("FF6", "STI"),
+    ("FF7", "STI"), ("FF8", "STI"), ("FF9", "STI"),
+    ("MON", "DSOy"), ("MONTH", "DSOy"), ("DY", "DSO"), ("DAY", "DSO"), ("D", "DSO"), ("DDD", "DSO"), ("W", "DSO"), ("WW", "DSO"),
+];
+const STRICT_SEPARATORS: &[u8] = b"-:/,.; ";
+
+fn ty_letter(ty: Ty) -> char {
+    match ty {
+        Ty::Date => 'D',
+        Ty::Timestamp => 'S',
+        Ty::Time => 'T',
+        Ty::IntervalYM => 'Y',
+        Ty::IntervalDT => 'I',
+        Ty::Oracle => 'O',
+    }
+}
+
+/// The first element of a strictly shaped picture that the type does not carry; `None` if the
+/// picture is not of the strict shape, or every element applies or is left open.
+pub fn inapplicable_in(ty: Ty, pic: &str) -> Option<&'static str> {
+    if pic.is_empty() || pic.len() > 120 || !pic.is_ascii() {
+        return None;
+    }
+    let up = pic.to_ascii_uppercase();
+    let mut found = None;
+    for piece in up.as_bytes().split(|b| STRICT_SEPARATORS.contains(b)) {
+        let (name, carriers) = ELEMENTS.iter().find(|(n, _)| n.as_bytes() == piece)?;
+        let l = ty_letter(ty);
+        if found.is_none() && !carriers.contains(l) && !carriers.contains(l.to_ascii_lowercase()) {
+            found = Some(*name);
+        }
+    }
+    found
+}
+
+/// For a call that renders a valid value with a strictly shaped picture: the element that must
+/// make it fail.
+pub fn must_be_refused(call: &Call) -> Option<&'static str> {
+    match call {
+        Call::Format { ty, pic, .. } => inapplicable_in(*ty, pic),
+        _ => None,
+    }
+}
+
+const APPL_CONTEXTS: u64 = 3;
+
+fn applicability_grid_len() -> u64 {
+    6 * ELEMENTS.len() as u64 * APPL_CONTEXTS * 2 * 2 * 2
+}
+
+fn applicability_call(j: u64) -> Call {
+    let ty = ALL_TYPES[(j % 6) as usize];
+    let j = j / 6;
+    let (el, _) = ELEMENTS[(j % ELEMENTS.len() as u64) as usize];
+    let j = j / ELEMENTS.len() as u64;
+    let ctx = j % APPL_CONTEXTS;
+    let j = j / APPL_CONTEXTS;
+    let display = j % 2 == 1;
+    let lower = (j / 2) % 2 == 1;
+    let second = (j / 4) % 2 == 1;
+    // an element the type carries, to stand before or after the one under test
+    let own = match ty {
+        Ty::Date | Ty::Timestamp | Ty::Oracle => "DD",
+        Ty::Time | Ty::IntervalDT => "MI",
+        Ty::IntervalYM => "MM",
+    };
+    let pic = match ctx {
+        0 => el.to_string(),
+        1 => format!("{} {}", own, el),
+        _ => format!("{}-{}", el, own),
+    };
+    let pic = if lower { pic.to_ascii_lowercase() } else { pic };
+    let raw = match (ty, second) {
+        (Ty::Date, false) => simcore::civil::days_from_civil(2024, 2, 29),
+        (Ty::Date, true) => simcore::civil::days_from_civil(1, 1, 1),
+        (Ty::Timestamp, false) | (Ty::Oracle, false) => simcore::civil::days_from_civil(2024, 2, 29) * 86_400_000_000 + 47_096_000_000,
+        (Ty::Timestamp, true) | (Ty::Oracle, true) => simcore::civil::days_from_civil(9999, 12, 31) * 86_400_000_000,
+        (Ty::Time, false) => 47_096_123_456,
+        (Ty::Time, true) => 0,
+        (Ty::IntervalYM, false) => 14,
+        (Ty::IntervalYM, true) => -24,
+        (Ty::IntervalDT, false) => 3 * 86_400_000_000 + 47_096_123_456,
+        (Ty::IntervalDT, true) => -86_400_000_000,
+    };
+    Call::Format { ty, raw, pic, display, flags: 0 }
 }
 
 pub fn grid_call(tables: &Tables, j: u64) -> Call {
     const DAY: i64 = 86_400_000_000;
+    if j >= scaling_grid_len(tables) {
+        return applicability_call(j - scaling_grid_len(tables));
+    }
     let fs = grid_funcs(tables);
     let per = GRID_DAYS * GRID_FACTORS * 2;
     let name = fs[(j / per) as usize % fs.len().max(1)];
